@@ -26,9 +26,13 @@ class ElementProgram:
         if tokenizer is None:
             tokenizer = self.tokenizers[mode]
         tokens = tokenizer(source, filename)
-        parser = ElementParser(
-            tokens, self.DEFAULT_NAMESPACES, self.restricted_namespace
-        )
+        if mode == "text" and tokenizer is iter_text:
+            # In text mode, markup characters carry no meaning
+            parser = (("text", (token, )) for token in tokens)
+        else:
+            parser = ElementParser(
+                tokens, self.DEFAULT_NAMESPACES, self.restricted_namespace
+            )
 
         self.body = []
 
